@@ -18,6 +18,7 @@ import unified_planning as up
 import unified_planning.engines as engines
 from unified_planning.engines.mixins.compiler import CompilationKind, CompilerMixin
 from unified_planning.engines.results import CompilerResult
+from unified_planning.engines.compilers.utils import rewritten_problem_kind
 from unified_planning.model import Problem, ProblemKind
 from unified_planning.model.problem_kind_versioning import LATEST_PROBLEM_KIND_VERSION
 from unified_planning.engines.compilers.utils import (
@@ -117,9 +118,15 @@ class StateInvariantsRemover(engines.engine.Engine, CompilerMixin):
     def resulting_problem_kind(
         problem_kind: ProblemKind, compilation_kind: Optional[CompilationKind] = None
     ) -> ProblemKind:
-        new_kind = problem_kind.clone()
+        new_kind = rewritten_problem_kind(problem_kind)
         if new_kind.has_state_invariants():
             new_kind.unset_constraints_kind("STATE_INVARIANTS")
+        # the invariants become conditions that must hold whenever the state changes
+        if new_kind.has_timed_effects():
+            new_kind.set_time("TIMED_GOALS")
+        # the gains of the oversubscription goals that become equal are summed (1/2 + 1/2 is an integer)
+        if new_kind.has_real_numbers_in_oversubscription():
+            new_kind.set_oversubscription_kind("INT_NUMBERS_IN_OVERSUBSCRIPTION")
         return new_kind
 
     def _compile(
